@@ -11,8 +11,8 @@ import (
 
 // Keys is the shared key alphabet: small, so random documents hit, but covering dot-illegal,
 // escaped, non-ASCII and astral keys.
-var Keys = []string{"a", "b", "c", "d", "aa", "0", "a b", "é", "😀", "a.b", "", "'", "\"", "x\\y", "-", "a\tb", "\n", "é.b", "名 前", "ü-ö$x", "ab", "’", "A", "x\\'y", "\\\"", "\\", "�A", "�", "100%", "%s", "*", "@"}
-var keyWeights = []int{12, 10, 8, 4, 3, 3, 2, 2, 1, 2, 1, 1, 1, 1, 1, 1, 1, 2, 1, 1, 2, 1, 1, 1, 1, 1, 1, 1, 1, 1, 1, 1}
+var Keys = []string{"a", "b", "c", "d", "aa", "0", "a b", "é", "😀", "a.b", "", "'", "\"", "x\\y", "-", "a\tb", "\n", "é.b", "名 前", "ü-ö$x", "ab", "’", "A", "x\\'y", "\\\"", "\\", "�A", "�", "100%", "%s", "*", "@", "a ", " ", " a", "b  "}
+var keyWeights = []int{12, 10, 8, 4, 3, 3, 2, 2, 1, 2, 1, 1, 1, 1, 1, 1, 1, 2, 1, 1, 2, 1, 1, 1, 1, 1, 1, 1, 1, 1, 1, 1, 2, 1, 1, 1}
 
 var keyGen = weighted(Keys, keyWeights)
 
@@ -393,7 +393,7 @@ func (g *G) OperandPath(filterDepth int, group bool) *Path {
 	return p
 }
 
-var numLits = []string{"0", "1", "2", "-1", "1.5", "10", "1e2", "2.0", "+1", "-0.5", "100", "3", "9007199254740993", "-0"}
+var numLits = []string{"0", "1", "2", "-1", "1.5", "10", "1e2", "2.0", "+1", "-0.5", "100", "3", "9007199254740993", "-0", "0x1p1", "0X1P-1", "-0x.8p1", "0x1.8p+0", "1E+2", "10e-1"}
 var strLits = []string{"a", "b", "", "1", "a b", "é", "it's", "say \"hi\"", "x\\y", "true", "null", "ab", "it’s", "50%", "%d"}
 var regexes = []string{"a", "^a", "b$", "[ab]+", "(?i)A", "a|b", ".", "a/b", `\d+`, "^$", "é", `\\`, "^(a b|1)$", "a b", "ab", "^", "$", "a $", "^a$", "^ab$", `\Aa\z`, "^a", "b$", "^[0-9]+%$", "%v"}
 
